@@ -235,6 +235,7 @@ def run(ctx):
                               '(function, point, configuration)', request=req, in_history=got, fresh=want)
                 break
     shared_generator_histories(ctx, nd, rng)
+    single_reconfiguration_table(ctx, nd, rng)
     # threads
     nthreads = 16
     cfgs = []
@@ -274,6 +275,51 @@ def run(ctx):
     RC.clear()
     ctx.assumptions.append('thread interleavings are modelled at the granularity of the interpreter lock (atomic dict get / set); '
                            'numpy / LAPACK internals are outside the model; warnings.catch_warnings in dea3 is process-global (affects warnings only)')
+
+
+def single_reconfiguration_table(ctx, nd, rng):
+    """the systematic part of the reconfiguration histories: call, change exactly one of (method, n, order), call again at the same
+    point — for every ordered pair of neighbouring configurations of a small grid (real-step methods x n 1, 2 x order 2, 3, 4, and
+    complex / multicomplex x order), the second call against a fresh interpreter"""
+    grid = [(m, n, o) for m in REAL for n in (1, 2) for o in (2, 3, 4)] + [(m, n, o) for m in ('complex', 'multicomplex') for n in (1, 2) for o in (2, 4)]
+    pairs = []
+    for a in grid:
+        for b in grid:
+            if a != b and sum(x != y for x, y in zip(a, b)) == 1 and (a[0] in REAL) == (b[0] in REAL):
+                pairs.append((a, b))
+    if not ctx.thorough:
+        pairs = rng.sample(pairs, 60)
+    requests, results = [], []
+    for a, b in pairs:
+        fname = rng.choice(list(FUNCS))
+        x = rng.choice([0.5, 1.25, 2.0])
+        d = nd.Derivative(FUNCS[fname], n=a[1], method=a[0], order=a[2], full_output=True)
+        try:
+            with warnings.catch_warnings():
+                warnings.simplefilter('ignore')
+                d(x)
+                if a[0] != b[0]:
+                    d.method = b[0]
+                if a[1] != b[1]:
+                    d.n = b[1]
+                if a[2] != b[2]:
+                    d.order = b[2]
+                val, info = d(x)
+        except Exception as ex:
+            ctx.violation('a reconfigured object raised %r' % ex, before=list(a), after=list(b), x=x)
+            continue
+        ctx.tried(('reconfigure', a, b, fname, x))
+        requests.append({'cls': 'Derivative', 'f': fname, 'n': b[1], 'method': b[0], 'order': b[2], 'x': x, 'step_ratio': None,
+                         'history': ['call as %s' % (a,), 'set to %s' % (b,), 'call']})
+        results.append(pack(val, info))
+    if requests:
+        fresh = fresh_eval(requests)
+        for req, got, want in zip(requests, results, fresh):
+            if got != want:
+                ctx.violation('a call result depends on history (one attribute changed between two calls of the same object): it differs '
+                              'from a fresh-interpreter evaluation of the same (function, point, configuration)', request=req, in_history=got,
+                              fresh=want)
+                break
 
 
 def shared_generator_histories(ctx, nd, rng):
